@@ -4,10 +4,14 @@ E-GRID, two enumerated families, every element executed on the real ``model.esti
 ``model.compute_individual_trajectory``:
 
 * **grid**: model kind x dimension x number of sources x parameter vector x individual (xi, tau, sources) x
-  age list (single, tau itself, dense sorted, unsorted, repeated, far extrapolation tau +- 1000, empty) x
+  age list (single, tau itself, dense sorted, unsorted, repeated, far extrapolation tau +- 1000, empty, the age
+  0 alone and +0.0 / -0.0 among other ages; tau alphabet includes 0 and 2 so that the curves are not ~0 there) x
   entry point.  Oracle: independent float64 closed form (``lmc/c09_ref.py``: reparametrised age, Householder based
   space shift, curve) with a tolerance derived per value; logistic range [0, 1]; non-decreasing along sorted ages
   (every consecutive pair); documented value at the reference time for an unshifted individual; shape.
+* **reuse**: histories on ONE model object (every ordered pair / triple of parameter vectors, changed in place by
+  ``load_parameters`` or by assignments into ``model.state``), an estimate after every change, judged against the
+  closed form of the parameters the model holds at that moment.
 * **layout**: every ordered cohort of 1..3 individuals out of a catalogue of three (container always holds all three)
   x every assignment of an age list to every member x every request form (dict of lists / tuples / arrays / scalar
   ages, ``to_dataframe`` on/off, ``MultiIndex`` grouped / interleaved / level-swapped / with a third level,
@@ -39,13 +43,16 @@ RULE = (
     "full products of the listed alphabets, no sampling; a case = one call of estimate / compute_individual_trajectory, "
     "identified by (model spec, individual parameters, age list(s), request form); it is counted as distinct and "
     "non-trivial when its identifier is new AND the call returned at least one estimated row that was compared with "
-    "the independent closed form (empty requests and refused calls are executed and judged but not counted)"
+    "the independent closed form (empty requests and refused calls are executed and judged but not counted); "
+    "in the reuse family a case = one history (sequence of parameter vectors, way of changing them, age list, entry "
+    "point) on one model object, counted when an estimate made after a change returned compared rows"
 )
 ASSUMPTIONS = [
     "real-valued parameters, individual parameters and ages are covered on the listed grids only (all exactly "
     "representable or first rounded to float32, the dtype leaspy stores them in)",
     "model objects are built from parameter dictionaries through BaseModel.load (population latent variables at "
-    "their prior mode = the *_mean parameters), not from a fit",
+    "their prior mode = the *_mean parameters), not from a fit; parameters are changed in place only through "
+    "load_parameters or by assigning <var>_mean and <var> into model.state (histories of length <= 3)",
     "the joint model's event columns (survival / cumulative incidence) are only checked for count and range; their "
     "formula belongs to C08 (a NaN there, 0/0 after underflow at xi = 2.5, is recorded as outcome 'event_column_nan', "
     "not judged); joint with dimension >= 2 and no source cannot be loaded from a dict and is skipped",
@@ -61,12 +68,13 @@ CIT = "compute_individual_trajectory"
 # alphabets (ordered simplest first)
 
 XI = [0.0, -1.0, 0.8]
-TAU = [70.0, 55.0, 90.0]
+# 0.0 and 2.0: individuals whose reference time is at / next to age 0, so that the curves are far from 0 at age 0
+TAU = [70.0, 55.0, 90.0, 2.0, 0.0]
 SRC = [0.0, -2.0, 1.5]
 XI_THOROUGH = [2.5, -3.0]
 TAU_THOROUGH = [70.25]
 
-GRID_LISTS = ["single", "at_tau", "empty", "unsorted", "repeated", "sorted", "far"]
+GRID_LISTS = ["single", "at_tau", "empty", "zero", "unsorted", "repeated", "zero_mixed", "sorted", "far"]
 GRID_LISTS_THOROUGH = GRID_LISTS + ["long"]
 
 
@@ -77,6 +85,10 @@ def grid_ages(name, tau):
         return [tau]
     if name == "empty":
         return []
+    if name == "zero":  # absolute: the age 0 alone (0 is also the value used to pad visits inside datasets)
+        return [0.0]
+    if name == "zero_mixed":  # absolute: +0.0 and -0.0 among other ages
+        return [2.0, 0.0, -3.0, -0.0, 5.0]
     if name == "unsorted":
         return [tau + 3.0, tau - 6.0, tau + 1.0]
     if name == "repeated":
@@ -111,7 +123,7 @@ LAYOUT_LISTS = {
     "single": [70.0],
     "unsorted": [75.5, 62.0, 70.0],
     "repeated": [70.0, 66.0, 70.0],
-    "ints": [71, 68],
+    "ints": [71, 0, 68],
     "empty": [],
 }
 LAYOUT_LIST_ORDER = ["single", "unsorted", "repeated", "ints", "empty"]
@@ -287,6 +299,87 @@ def exception_site(exc, default_site):
 # ------------------------------------------------------------------------------------------------------------
 # one case = one call
 
+REUSE_MODES = ["load_parameters", "state_assign"]
+REUSE_LISTS = ["unsorted", "at_tau"]
+REUSE_INDIVIDUALS = [("u", 0.0, 70.0, [0.0, 0.0, 0.0]), ("v", 0.8, 55.0, [1.5, -2.0, 0.5])]
+# population latent variables that carry the curve parameters, per kind (each has a `<name>_mean` model parameter)
+REUSE_POP_VARS = {
+    "logistic": ["log_g", "log_v0", "betas"],
+    "joint": ["log_g", "log_v0", "betas"],
+    "linear": ["g", "log_v0", "betas"],
+    "shared_speed_logistic": ["log_g", "deltas", "betas"],
+}
+
+
+def vector_spec(base, v):
+    """Parameter vector number v of a (kind, dim, ns): 0..2 = catalogue variants, 3 = the wide vector."""
+    spec = {"kind": base["kind"], "dim": base["dim"], "ns": base["ns"], "variant": v if v < 3 else 0}
+    if v == 3:
+        spec["wide"] = True
+    return spec
+
+
+def _run_reuse(case):
+    """History on ONE model object: build it with vector v0, estimate; change the parameters in place to v1
+    (load_parameters, or assignments into model.state), estimate; (v2, estimate).  Every estimate must follow the
+    closed form of the parameters the model holds at that moment."""
+    import torch
+
+    base, vectors, mode = case["base"], case["vectors"], case["mode"]
+    site = "estimate[dict->dict]" if case["site"] == "estimate" else CIT
+    spec0 = vector_spec(base, vectors[0])
+    d0 = spec_parameters(spec0)
+    model = BaseModel.load(copy.deepcopy(d0))  # fresh object: it is modified below
+    n_out = base["dim"] + (1 if base["kind"] == "joint" else 0)
+    viol, rows, flags = [], 0, set()
+    inds = REUSE_INDIVIDUALS
+    for step, v in enumerate(vectors):
+        spec = vector_spec(base, v)
+        params = spec_parameters(spec)["parameters"]
+        if step > 0:
+            try:
+                if mode == "load_parameters":
+                    model.load_parameters(copy.deepcopy(params))
+                else:
+                    for name in REUSE_POP_VARS[base["kind"]]:
+                        if name + "_mean" not in params:
+                            continue
+                        cur = model.state[name]
+                        val = torch.tensor(params[name + "_mean"], dtype=cur.dtype).reshape(cur.shape)
+                        model.state[name + "_mean"] = val.clone()
+                        model.state[name] = val.clone()
+            except Exception as e:
+                viol.append((f"{mode}|{type(e).__name__}|{spec_label(spec)}", f"step {step}: changing parameters raised {e!r}"[:600], None, None))
+                break
+        ctx = {"spec": spec, "model": model, "pop": R.population(base["kind"], base["dim"], base["ns"], params),
+               "features": list(d0["features"]), "n_out": n_out}
+        judge = Judge(ctx)
+        try:
+            if case["site"] == "estimate":
+                res = model.estimate({i: grid_ages(case["list"], tau) for i, _, tau, _ in inds}, make_ip(spec, inds))
+                got = {i: res[i] for i, _, _, _ in inds}
+            else:
+                got = {i: model.compute_individual_trajectory(grid_ages(case["list"], tau), ip_dict(spec, xi, tau, src)).detach().cpu().numpy()[0]
+                       for i, xi, tau, src in inds}
+        except Exception as e:
+            viol.append((f"{exception_site(e, site)}|{type(e).__name__}|step {min(step, 1)} of a parameter-change history",
+                         f"step {step} ({mode}, vectors {vectors}): {e!r}"[:600], None, None))
+            break
+        for i, xi, tau, src in inds:
+            judge.rows_of(site, got[i], grid_ages(case["list"], tau), xi, tau, src, who=f"step {step} vector {v} individual {i}")
+        for sig, msg, exp, obs in judge.viol:
+            if step > 0:
+                a, b, c = sig.split("|")
+                sig = f"{a}|{b} after the parameters were changed in place|{c}, {mode}"
+            viol.append((sig, msg, exp, obs))
+        if step > 0:
+            rows += judge.rows
+        flags |= judge.flags
+    status = "judged-wrong" if viol else "ok:" + "+".join(sorted(flags))
+    return {"violations": viol, "outcome": f"reuse[{mode}]:{site}:{status}", "nontrivial": rows > 0,
+            "brief": {"vectors": vectors, "mode": mode}}
+
+
 def run_case(case):
     """Execute one case on the implementation and judge it.
     Returns dict(violations=[(sig, msg, expected, observed)], outcome=str, nontrivial=bool, evaluations=int, brief=...)."""
@@ -294,6 +387,8 @@ def run_case(case):
         return _run_grid(case)
     if case["t"] == "layout":
         return _run_layout(case)
+    if case["t"] == "reuse":
+        return _run_reuse(case)
     raise ValueError(case)
 
 
@@ -597,6 +692,15 @@ def bounds(tier):
             "age_lists": GRID_LISTS if q else GRID_LISTS_THOROUGH,
             "entry_points": ["estimate(dict)", CIT],
         },
+        "reuse": {
+            "models": [f"{b['kind']} d{b['dim']} s{b['ns']}" for b in reuse_bases(tier)],
+            "histories": "one model object: every ordered pair and triple of distinct parameter vectors "
+            f"({len(reuse_histories(tier))}), an estimate after every change, judged against the closed form of the current vector",
+            "ways_of_changing_parameters": REUSE_MODES,
+            "age_lists": REUSE_LISTS,
+            "individuals": REUSE_INDIVIDUALS,
+            "entry_points": ["estimate(dict)", CIT],
+        },
         "layout": {
             "models": [f"{s['kind']} d{s['dim']} s{s['ns']}" for s in layout_specs(tier)],
             "cohorts": "every ordered cohort of 1..3 of the 3 catalogue individuals (15)",
@@ -612,10 +716,36 @@ def shards(tier, seed):
     out = []
     for spec in grid_specs(tier):
         out.append({"fam": "grid", "spec": spec, "tier": tier, "seed": seed})
+    for base in reuse_bases(tier):
+        out.append({"fam": "reuse", "base": base, "tier": tier})
     for spec in layout_specs(tier):
         for cohort in ordered_cohorts():
             out.append({"fam": "layout", "spec": spec, "cohort": cohort, "tier": tier})
     return out
+
+
+def reuse_bases(tier):
+    out = []
+    for kind in KINDS:
+        out.append({"kind": kind, "dim": 1, "ns": 0})
+        out.append({"kind": kind, "dim": 2, "ns": 1})
+        if tier != "quick":
+            out.append({"kind": kind, "dim": 3, "ns": 2})
+    return out
+
+
+def reuse_histories(tier):
+    """Every ordered pair and triple of distinct parameter vectors."""
+    ids = [0, 1, 2] if tier == "quick" else [0, 1, 2, 3]
+    return [list(h) for k in (2, 3) for h in itertools.permutations(ids, k)]
+
+
+def reuse_cases(shard):
+    for vectors in reuse_histories(shard["tier"]):
+        for mode in REUSE_MODES:
+            for name in REUSE_LISTS:
+                for site in ("estimate", "cit"):
+                    yield {"t": "reuse", "base": shard["base"], "vectors": vectors, "mode": mode, "list": name, "site": site}
 
 
 def grid_cases(shard):
@@ -648,7 +778,7 @@ def layout_cases(shard):
 
 def run_shard(shard):
     acc = Acc()
-    cases = grid_cases(shard) if shard["fam"] == "grid" else layout_cases(shard)
+    cases = {"grid": grid_cases, "layout": layout_cases, "reuse": reuse_cases}[shard["fam"]](shard)
     for case in cases:
         res = run_case(case)
         acc.evaluation()
@@ -657,7 +787,7 @@ def run_shard(shard):
             acc.nontriv(digest(case))
         for sig, msg, expected, observed in res["violations"]:
             acc.violation(sig, msg, case, expected, observed)
-        if res["nontrivial"] and (case.get("list") == "unsorted" or case.get("form") == "mi_interleaved"):
+        if res["nontrivial"] and case["t"] != "reuse" and (case.get("list") == "unsorted" or case.get("form") == "mi_interleaved"):
             acc.sample({"case": case, "outcome": res["outcome"], "result": res["brief"]})
         acc.count(f"cases_{case['t']}")
     return acc.to_dict()
